@@ -99,8 +99,22 @@ func genC20(r *Rng, n int, tier string, emit func(Case)) {
 				doc = append(doc, nRaw(sVar(x, eCall(eDot(eId(nm), "slice"), eNum(strconv.Itoa(kk))))))
 				arrs[x] = &cell{c.n - kk}
 				names = append(names, x)
-			case 8: // alias
+			case 8: // alias, or a fresh array literal ([] and [x, y] are new arrays every time they are evaluated)
 				x := fresh("b")
+				if rr.Chance(1, 3) {
+					k := rr.Intn(3)
+					var es []interface{}
+					for j := 0; j < k; j++ {
+						es = append(es, elem())
+					}
+					if rr.Bool() {
+						es = nil // the empty literal
+					}
+					doc = append(doc, nRaw(sVar(x, eArr(es...))))
+					arrs[x] = &cell{len(es)}
+					names = append(names, x)
+					break
+				}
 				doc = append(doc, nRaw(sVar(x, eId(nm))))
 				arrs[x] = c
 				names = append(names, x)
@@ -110,8 +124,24 @@ func genC20(r *Rng, n int, tier string, emit func(Case)) {
 				if c.n > 0 {
 					doc = append(doc, nText("at:"), nBuf(eIdx(eId(nm), eNum(strconv.Itoa(rr.Intn(c.n)))), true))
 				}
-			default: // string methods on an ASCII string
+			default: // string methods on an ASCII string: a string from the data, or (recv) a literal in the template
 				sv := data["s"].(string)
+				if rr.Chance(1, 3) {
+					lit := []string{"Hello World", "a,b", "x"}[rr.Intn(3)]
+					switch rr.Intn(5) {
+					case 0:
+						doc = append(doc, nText("Lch:"), nBuf(eCall(eDot(eStr(lit), "charAt"), eNum(strconv.Itoa(rr.Intn(len(lit))))), true))
+					case 1:
+						doc = append(doc, nText("Lio:"), nBuf(eCall(eDot(eStr(lit), "indexOf"), eStr([]string{"o", ",", "zz"}[rr.Intn(3)])), true))
+					case 2:
+						doc = append(doc, nText("Lup:"), nBuf(eCall(eDot(eStr(lit), "toUpperCase")), true))
+					case 3:
+						doc = append(doc, nText("Llo:"), nBuf(eCall(eDot(eStr(lit), "toLowerCase")), true))
+					default:
+						doc = append(doc, nText("Llen:"), nBuf(eDot(eStr(lit), "length"), true))
+					}
+					break
+				}
 				switch rr.Intn(7) {
 				case 0:
 					doc = append(doc, nText("len:"), nBuf(eDot(eId("s"), "length"), true))
